@@ -33,7 +33,7 @@ int main() {
   rc = forked([&] { auto e = Config2::compile(rootWith("5s", ""), cc); return e ? 1 : 0; });
   check(rc == 0, "post_action_delay=\"5s\" (trailing garbage) is rejected (rc=" + std::to_string(rc) + ")");
   // 2. sizes
-  for (auto s : {"1e30", "nan", "inf", "99999999999T", "9223372036854775807G"}) {
+  for (auto s : {"1e30", "nan", "inf", "99999999999T", "9223372036854775807G", "8388608T", "4194304T 4194304T", "9223372036854775808"}) {
     int64_t v = 0; int r = Util::parseSize(s, &v);
     check(r != 0, std::string("parseSize(\"") + s + "\") is rejected (returned " + std::to_string(r) + ", value " + std::to_string(v) + ")");
   }
